@@ -14,6 +14,7 @@ from checks import c01, c05
 getcontext().prec = 60
 
 
+THOROUGH_ROUNDS = 3      # repetitions of the conformance part in the thorough tier (fresh random draws each)
 def pow2(b):
     return Decimal(2) ** Decimal(b)
 
